@@ -118,16 +118,28 @@ class Visitor(_BaseVisitor[T], abc.ABC):
     :param ob: An object to walk.
     """
     try:
+      self._walk(ob)
+    except self.SkipSiblings:
+      pass # the root has no siblings to skip
+
+  def _walk(self, ob: T) -> None:
+    skip_siblings: Optional[Exception] = None
+    try:
       self.visit(ob)
     except (self.SkipChildren, self.SkipNode):
       return
     except self.SkipDeparture:           
       pass # not applicable; ignore
+    except self.SkipSiblings as e:
+      # the current node's children are not affected
+      skip_siblings = e
     try:
       for child in self.get_children(ob):
-          self.walk(child)
+          self._walk(child)
     except self.SkipSiblings:
       pass
+    if skip_siblings is not None:
+      raise skip_siblings
     
   def visit(self, ob: T) -> None:
     """Extend the base visit with extensions.
@@ -156,11 +168,18 @@ class Visitor(_BaseVisitor[T], abc.ABC):
     for v in self.extensions.before_visit + self.extensions.inner_visit:
       v.depart(ob)
     
+    pruning = None
     if not extensions_only:
-      super().depart(ob)
+      try:
+        super().depart(ob)
+      except self._TreePruningException as ex:
+        pruning = ex
 
     for v in self.extensions.after_visit + self.extensions.outter_visit:
       v.depart(ob)
+
+    if pruning:
+      raise pruning
 
   def walkabout(self, ob: T) -> None:
     """
@@ -174,8 +193,15 @@ class Visitor(_BaseVisitor[T], abc.ABC):
 
     :param ob: An object to walk.
     """
+    try:
+      self._walkabout(ob)
+    except self.SkipSiblings:
+      pass # the root has no siblings to skip
+
+  def _walkabout(self, ob: T) -> None:
     call_depart = True
     skip_node = False
+    skip_siblings: Optional[Exception] = None
     try:
       try:
         self.visit(ob)
@@ -184,15 +210,21 @@ class Visitor(_BaseVisitor[T], abc.ABC):
         call_depart = False
       except self.SkipDeparture:           
         call_depart = False
+      except self.SkipSiblings as e:
+        # the current node's children and departure are not affected,
+        # the siblings are skipped once the node has been departed.
+        skip_siblings = e
       if not skip_node:
         try:
           for child in self.get_children(ob):
-              self.walkabout(child)
+              self._walkabout(child)
         except self.SkipSiblings:
           pass
     except self.SkipChildren:
       pass
     self.depart(ob, extensions_only=not call_depart)
+    if skip_siblings is not None:
+      raise skip_siblings
 
 # Adapted from https://github.com/pawamoy/griffe
 # Copyright (c) 2021, Timothée Mazzucotelli
